@@ -9,7 +9,7 @@ RULE = ("(hard rule) Hypothesis-generated clean motif networks as in C11 with sy
         "zeroed, all limits, RNG seeded or scripted, draw budget: every edge created during the run (journal) or "
         "present only in the output must have positive target weight for its end points' excess pair in that "
         "topology. (approach) enumerated seeded configuration-style networks (N=100 quick / 300 thorough, 2- and "
-        "3-cliques over three joint-degree classes), assortative-mixture targets with lambda in [0.5,0.8], "
+        "3-cliques over three joint-degree classes), assortative-mixture and (every other case) disassortative targets with lambda in [0.5,0.8], "
         "CONVERGENCE_LIMIT = E (quick) / 2E: the L1 distance between the network's mixing matrices (harness-side "
         "extractor) and the target must be smaller after than before. Non-trivial = >= 1 accepted swap and >= 1 "
         "effective removed pairing (hard rule) / initial distance > 0.2 (approach); distinct = canonical JSON")
@@ -31,6 +31,7 @@ def enumerated(tier, seed):
     N = 100 if tier == "quick" else 300
     for i in range(n):
         out.append({"approach": True, "N": N, "net_seed": seed * 1000 + i, "lambda": [0.5, 0.65, 0.8][i % 3],
+                    "disassortative": i % 2 == 1,
                     "Lfactor": 1 if tier == "quick" else 2, "rng": {"mode": "seed", "seed": seed * 77 + i}})
     return out
 
@@ -41,6 +42,7 @@ def check(case):
         net = M.configuration_network(case["N"], case["net_seed"])
         E = sum(len(NC.motif_edges(net["topos"][ti]["kind"], vs)) for ti, vs in net["motifs"])
         full = {"net": net, "target": {"mode": "assortative", "lambda": case["lambda"],
+                                       "disassortative": bool(case.get("disassortative")),
                                        "dict_reversed": bool(case["net_seed"] % 2)}, "L": E * case["Lfactor"],
                 "search": 20, "rng": case["rng"]}
         R = M.run_rewire(full)
